@@ -36,3 +36,6 @@ pub proof fn axiom_exec_deterministic(tag: int, input: Seq<char>, observed: nat)
     ensures observed == det_nat(tag, input)
 {
 }
+
+/// stand-in for error payload types of other crates (never inspected by the extracted code)
+pub struct VxOpaqueErr;
